@@ -3,7 +3,7 @@
 current machinery: applies it to /repo, runs the property's quick check, undoes
 it, and updates the 'checks' / 'detected_by' entries of its meta.json."""
 import json, glob, os, subprocess, sys, time
-ENV = dict(os.environ, GOPROXY="off", GOSUMDB="off", GOTOOLCHAIN="local", GOFLAGS="")
+ENV = dict(os.environ, GOPROXY="off", GOSUMDB="off", GOTOOLCHAIN="local", GOFLAGS="", VMC_EVIDENCE_DIR="/verif/.work/seed-evidence")
 def sh(cmd, cwd=None, timeout=7200):
     p = subprocess.run(cmd, shell=True, cwd=cwd, env=ENV, capture_output=True, text=True, timeout=timeout)
     return p.returncode, p.stdout + p.stderr
